@@ -239,21 +239,30 @@ Section B.
   Lemma registry_independent r now a b e : a <> b ->
     alookup Nat.eqb b (fst (fst (rstep coin_lt (r, now) (a, e)))) = alookup Nat.eqb b r.
   Proof.
-    intro H. unfold rstep. cbn [fst snd]. destruct (get r a now) as [r1 w] eqn:G.
-    destruct (bstep (w, now) e) as [[w' now'] o]. cbn [fst]. unfold put, aset. cbn [alookup].
-    destruct (Nat.eqb_spec b a); [congruence|]. rewrite alookup_aremove_other by assumption.
-    unfold get in G. destruct (alookup Nat.eqb a r).
-    - inversion G; reflexivity.
-    - simpl in G. inversion G. simpl. destruct (Nat.eqb_spec b a); [congruence|reflexivity].
+    intro H. unfold rstep. cbn [fst snd].
+    assert (G0 : forall e', alookup Nat.eqb b (fst (fst (let (r1, w) := get r a now in
+                 let '(w', now', o) := bstep (w, now) e' in (put r1 a w', now', o)))) = alookup Nat.eqb b r).
+    { intro e'. destruct (get r a now) as [r1 w] eqn:G.
+      destruct (bstep (w, now) e') as [[w' now'] o]. cbn [fst]. unfold put, aset. cbn [alookup].
+      destruct (Nat.eqb_spec b a); [congruence|]. rewrite alookup_aremove_other by assumption.
+      unfold get in G. destruct (alookup Nat.eqb a r).
+      - inversion G; reflexivity.
+      - simpl in G. inversion G. simpl. destruct (Nat.eqb_spec b a); [congruence|reflexivity]. }
+    destruct e; try apply G0. reflexivity.
   Qed.
 
-  Lemma registry_same r now a e :
+  Lemma registry_same r now a e : (forall dt, e <> Advance dt) ->
     alookup Nat.eqb a (fst (fst (rstep coin_lt (r, now) (a, e)))) =
     Some (fst (fst (bstep (snd (get r a now), now) e))).
   Proof.
-    unfold rstep. cbn [fst snd]. destruct (get r a now) as [r1 w]. cbn [snd].
-    destruct (bstep (w, now) e) as [[w' now'] o]. cbn [fst]. unfold put, aset. cbn [alookup].
-    rewrite Nat.eqb_refl. reflexivity.
+    intro Hne. unfold rstep. cbn [fst snd].
+    assert (G0 : alookup Nat.eqb a (fst (fst (let (r1, w) := get r a now in
+                 let '(w', now', o) := bstep (w, now) e in (put r1 a w', now', o)))) =
+                 Some (fst (fst (bstep (snd (get r a now), now) e)))).
+    { destruct (get r a now) as [r1 w]. cbn [snd].
+      destruct (bstep (w, now) e) as [[w' now'] o]. cbn [fst]. unfold put, aset. cbn [alookup].
+      rewrite Nat.eqb_refl. reflexivity. }
+    destruct e; try exact G0. exfalso. eapply Hne. reflexivity.
   Qed.
 End B.
 
